@@ -593,6 +593,85 @@ fn linked_root(base: &Path, out: &mut Outcome) {
     }
 }
 
+/// A real watcher built with the public `FsWatcherBuilder` on several roots (`variant`: outer then a root nested
+/// in it, the nested one first, two disjoint roots, the same root given twice): every root given to `watch` is a
+/// watched root, so an entry under two of them is named once for each, and the parent directory likewise.
+/// Events are read back through the hook channel; a sentinel file created last bounds the wait.
+fn builder_roots(base: &Path, variant: usize, out: &mut Outcome) {
+    let outer = base.join("br_outer");
+    let inner = outer.join("in");
+    let other = base.join("br_other");
+    if std::fs::create_dir_all(&inner).is_err() || std::fs::create_dir_all(&other).is_err() || std::fs::write(inner.join("g.txt"), "0").is_err() {
+        return;
+    }
+    let (roots, name): (Vec<PathBuf>, &str) = match variant % 4 {
+        0 => (vec![outer.clone(), inner.clone()], "outer root first, then a root nested in it"),
+        1 => (vec![inner.clone(), outer.clone()], "nested root first, then the root around it"),
+        2 => (vec![outer.clone(), other.clone()], "two disjoint roots"),
+        _ => (vec![outer.clone(), outer.clone()], "the same root given twice"),
+    };
+    let (tx, rx) = verif::event_channel();
+    let Ok(mut b) = assets_manager::hot_reloading::FsWatcherBuilder::new() else { return };
+    for r in &roots {
+        if b.watch(r.clone()).is_err() {
+            return;
+        }
+    }
+    b.build(tx);
+    std::thread::sleep(Duration::from_millis(30));
+    let _ = std::fs::write(inner.join("g.txt"), "1");
+    let _ = std::fs::write(inner.join("n.txt"), "n");
+    let _ = std::fs::write(outer.join("t.txt"), "t");
+    let _ = std::fs::write(other.join("o.txt"), "o");
+    let _ = std::fs::write(outer.join("zz_end.txt"), "e");
+    let mut seen: BTreeSet<(bool, String, String)> = BTreeSet::new();
+    let done = wait_until(
+        || {
+            seen.extend(rx.recv_all().iter().map(entry_key));
+            seen.contains(&(false, "zz_end".to_string(), "txt".to_string()))
+        },
+        30,
+    );
+    // expectation: for every root, every touched path under it (modified: the entry; created: the entry and its parent)
+    let touched: [(&Path, bool); 5] = [(&inner.join("g.txt"), false), (&inner.join("n.txt"), true), (&outer.join("t.txt"), true), (&other.join("o.txt"), true), (&outer.join("zz_end.txt"), true)];
+    let mut need: BTreeSet<(bool, String, String)> = BTreeSet::new();
+    for r in &roots {
+        for (p, created) in &touched {
+            let Some(ids) = lexical_id(r, p) else { continue };
+            let (stem, parent) = ids.split_last().expect("a file under the root");
+            let stem = stem.strip_suffix(".txt").unwrap_or(stem).to_string();
+            let mut id = parent.join(".");
+            if !id.is_empty() {
+                id.push('.');
+            }
+            id.push_str(&stem);
+            need.insert((false, id, "txt".to_string()));
+            if *created {
+                need.insert((true, parent.join("."), String::new()));
+            }
+        }
+    }
+    let missing: Vec<_> = need.iter().filter(|n| !seen.contains(*n)).collect();
+    // nothing may be named that is not an entry of some root touched above (directories touched: the parents)
+    let mut allowed = need.clone();
+    for r in &roots {
+        for (p, _) in &touched {
+            if let Some(ids) = lexical_id(r, p) {
+                allowed.insert((true, ids[..ids.len() - 1].join("."), String::new()));
+            }
+        }
+    }
+    let extra: Vec<_> = seen.iter().filter(|n| !allowed.contains(*n)).collect();
+    if !done || !missing.is_empty() || !extra.is_empty() {
+        out.fail(
+            "real-builder-roots",
+            format!("a watcher built with FsWatcherBuilder::watch on {roots:?} ({name}; filesystem notifications work here): after modifying in/g.txt and creating in/n.txt, t.txt, zz_end.txt under {outer:?} and o.txt under {other:?}, the events are {seen:?}; missing {missing:?}, unexpected {extra:?}"),
+        );
+    } else {
+        out.label(format!("real-builder-roots:{}", variant % 4));
+    }
+}
+
 fn disk_listing(dir: &Path) -> Vec<String> {
     // stems of the files with extension txt or x directly inside
     let mut v: BTreeSet<String> = BTreeSet::new();
@@ -776,7 +855,7 @@ impl Prop for C12 {
          (notification kind: create file/folder/any, modify data/metadata/any, rename from/to/both, remove file/folder, any, access, other) x (path spelling: plain, with '.', with 'sibling/..'); removals are handled with the object already gone. \
          Each probe is fed to the crate's real notify handler (hook) and the events it sends are compared with: per root containing the path, the entry whose path_of is that path (right id, extension, kind; for a vanished extension-less path without hint either kind) \
          plus, for create/rename/remove, its parent directory (the root being Directory(\"\")); nothing for access/other/outside/inexpressible paths, and a later event is still delivered. Round trip id_of_path(path_of(e)) == e for every entry, path_of injective. \
-         Enumerated part: every entry of a fixed tree x every notification kind. Real part: generated write/delete/rename/mkdir histories on a temp dir watched by a real AssetCache<FileSystem>; after each step (sentinel file touched last) every directory handle equals the disk and a two-extension asset equals a fresh load; in half of them the very first activity under the freshly built watcher is a single-notification operation (create an empty file / delete), followed by a watcher built with the public FsWatcherBuilder on a root reached through a symbolic link, whose events are read back through the hook channel. \
+         Enumerated part: every entry of a fixed tree x every notification kind. Real part: generated write/delete/rename/mkdir histories on a temp dir watched by a real AssetCache<FileSystem>; after each step (sentinel file touched last) every directory handle equals the disk and a two-extension asset equals a fresh load; in half of them the very first activity under the freshly built watcher is a single-notification operation (create an empty file / delete), followed by a watcher built with the public FsWatcherBuilder on a root reached through a symbolic link, whose events are read back through the hook channel; the other half is followed by a watcher built with FsWatcherBuilder::watch on two roots (outer then nested, nested then outer, disjoint, the same twice) under which files are really modified and created: every entry is named once for each root it is under, with its parent directory for creations, and nothing else is named. \
          non-trivial = a probe on the root or a root-level entry, a rename/remove kind, a '..' spelling, several roots, or a real history; distinct = different canonical JSON"
             .into()
     }
@@ -880,6 +959,8 @@ impl Prop for C12 {
                 out.excluded += 1;
             } else if !out.failed() && c.first_probe.is_some() {
                 linked_root(&base, &mut out);
+            } else if !out.failed() {
+                builder_roots(&base, c.real.len(), &mut out);
             }
         }
         let _ = std::fs::remove_dir_all(&base);
